@@ -78,6 +78,7 @@ class Table(object):
             self._run('TCP_CLOSED', state, 'proto', 'connectionLost', [Opaque('reason')],
                       protocol='live', pre=disc)
             self._tcp_up(state)
+            self._stale_lost(state)
             # FSM message events, called directly
             self._run('OPEN_OK', state, 'fsm', 'open_received', protocol='live')
             self._run('HDR_ERR', state, 'fsm', 'header_error', [Opaque('sub'), Opaque('data')],
@@ -120,6 +121,28 @@ class Table(object):
                         r.regime = reg
                         r.old_poid = poid0
                         rows.append(r)
+
+    def _stale_lost(self, state):
+        """connectionLost of an earlier (already closed) connection arrives while a newer one is the
+        tracked connection."""
+        m = self.model
+        rows = self.rows.setdefault(('TCP_CLOSED_OLD', state), [])
+        for old, st in self._setup(state, 'stale'):
+            for new, s in m.new_protocol(st):
+                tr = s.heap[new].fields.get('transport')
+                if tr is not None and hasattr(tr, 'oid'):
+                    s.heap[tr.oid].fields['connected'] = Const(True)
+                s.heap[m.world.fsm].fields['state'] = Const(m.states[state])
+                s.actions = []
+                s.writes = []
+                s.path = []
+                for k, v, s2 in m.run_method(s, old, 'connectionLost', [Opaque('reason')]):
+                    r = Row(m, k, v, s2, new)
+                    r.event = 'TCP_CLOSED_OLD'
+                    r.pre = state
+                    r.regime = 'live'
+                    r.old_poid = old
+                    rows.append(r)
 
     def get(self, event, state):
         return self.rows.get((event, state), [])
